@@ -12,6 +12,8 @@ def run(prog, rep, tier):
                        "`?(E)` vs `([E] != [])`: these equate results of two programs for all inputs (other families).")
     apply(rep, "N1", "format directives are their documented expansions", r_lex.n1(prog), 5)
     apply(rep, "N2", "infix operators are the documented ?(let..) tree", r_lex.n2(prog), 1)
+    import r_tables
+    apply(rep, "U1", "the simplifier's erase-remove drops the whole removed tail", r_tables.u1(prog), 1)
     s1 = r_scope.s1(prog)
     apply(rep, "S1", "ALT/OR/sub-expression contexts are scoped uniformly", (s1[0], s1[1]), 10)
     maybe_mutants("C15", rep, tier)
